@@ -21,7 +21,12 @@ import (
 func ZZ_C20_Relay() {
 	nBlocks, maxTx, nKinds := 2, 2, 7
 	if vrt.Thorough() {
-		nBlocks, maxTx, nKinds = 2, 3, 7
+		// four kinds: unrelated, valid deposit, batch, valset update
+		if vrt.Choose("shape", 2) == 0 {
+			nBlocks, maxTx, nKinds = 2, 3, 4
+		} else {
+			nBlocks, maxTx, nKinds = 3, 2, 4
+		}
 	}
 	s := minter.ZZBuildScript(nBlocks, maxTx, nKinds)
 	start := context.ZZCursor{Block: s.First, EventNonce: 1 + vrt.Uint64Below("start.eventNonce", 1<<56),
